@@ -190,6 +190,11 @@ HOPS = [
     ['parse_file 0 %s' % hx('inc3top.conf'), 'parse_fp 0 %s' % hx('i = 8\nsl += {"fp"}\n')],
     # a string option set to its own current value (the argument aliases the stored string)
     ['selfstr 0 %s 0 0' % hx('s'), 'selfstr 0 %s 1 1' % hx('sl'), 'selfstr 0 %s 0 1' % hx('sl')],
+    # look-ups through malformed and well-formed quoted titles (each copies and unescapes the title), function calls with 15..17 and 40 arguments
+    ['getopt 0 %s' % hx("sec='a\\xb'|x"), 'getopt 0 %s' % hx("sec='a\\'|x"), 'getsec 0 %s' % hx("sec='open"), 'getopt 0 %s' % hx("sec='a'|x"), 'rmsec 0 %s' % hx("sec='no\\q'"),
+     'setint 0 %s 5' % hx("sec='b\\z'|x")],
+    ['parse_buf 0 %s' % hx('fn(%s)\nfn(%s)\nfn(%s)\nsec a { fn(%s) }\n' % (', '.join('a%d' % k for k in range(15)), ', '.join('b%d' % k for k in range(16)),
+                                                                            ', '.join('c%d' % k for k in range(17)), ', '.join('d%d' % k for k in range(40))))],
     ['add_searchpath 0 %s' % hx('~nosuchuser_verif/dir'), 'add_searchpath 0 %s' % hx('~'), 'parse_file 0 %s' % hx('~nosuchuser_verif/top.conf'), 'tilde %s' % hx('~nosuchuser_verif')],
 ]
 
